@@ -17,7 +17,7 @@ Definition rc_eqb (a b : rc) : bool :=
 
 Definition ev_eqb (a b : event) : bool :=
   match a, b with
-  | E100, E100 | EHijack, EHijack | EClose, EClose => true
+  | E100, E100 | EHijack, EHijack | EClose, EClose | ESilent, ESilent => true
   | EDispatch i n x, EDispatch j m y => (i =? j) && (n =? m) && rc_eqb x y
   | EResp s c, EResp t d => (s =? t) && Bool.eqb c d
   | EParse x, EParse y => x =? y
@@ -62,12 +62,37 @@ Fixpoint cmp (c : cfg) (rs : list req) (m impl : list event) : bool :=
   | e :: m' => match impl with i :: impl' => ev_eqb e i && cmp c rs m' impl' | [] => false end
   end.
 
+(* A connection that ends silently (ESilent: io.EOF while reading a body) does not flush the buffered
+   writer: responses of earlier pipelined requests that were written while more input was already
+   buffered never reach the peer.  Whether they were still buffered depends on how the input arrived
+   in the bufio.Reader, which the model does not have: for such traces the implementation may lack
+   keep-alive responses from some point on (its handler calls are still reported, in order). *)
+Definition is_silent (e : event) : bool := match e with ESilent => true | _ => false end.
+Definition keeps (e : event) : bool := visible e || is_silent e.
+
+Fixpoint cmp_lossy (m impl : list event) (lost : bool) : bool :=
+  match m with
+  | [] => match impl with [] => true | _ => false end
+  | ESilent :: m' => cmp_lossy m' impl lost
+  | EResp s false :: m' =>
+      if lost then cmp_lossy m' impl true
+      else match impl with
+           | i :: impl' => (ev_eqb (EResp s false) i && cmp_lossy m' impl' false) || cmp_lossy m' impl true
+           | [] => cmp_lossy m' [] true
+           end
+  | e :: m' => match impl with i :: impl' => ev_eqb e i && cmp_lossy m' impl' lost | [] => false end
+  end.
+
+Definition cmp_trace (c : cfg) (rs : list req) (m impl : list event) : bool :=
+  let m' := filter keeps m in
+  if existsb is_silent m' then cmp_lossy m' impl false else cmp c rs (filter visible m) impl.
+
 Definition model_trace (c : cfg) (rs : list req) : list event := filter visible (serve c rs 0).
 
 Fixpoint cmp_conns (c : cfg) (conns : list (list req)) (ms impls : list (list event)) : bool :=
   match conns, ms, impls with
   | [], [], [] => true
-  | rs :: cr, m :: mr, i :: ir => cmp c rs (filter visible m) i && cmp_conns c cr mr ir
+  | rs :: cr, m :: mr, i :: ir => cmp_trace c rs m i && cmp_conns c cr mr ir
   | _, _, _ => false
   end.
 
@@ -80,7 +105,7 @@ Fixpoint judge_conns (c : cfg) (conns : list (list req)) (impls : list (list eve
 
 Definition corr_ok (x : c02case) : bool :=
   match x with
-  | C02Case c rs impl => cmp c rs (model_trace c rs) impl
+  | C02Case c rs impl => cmp_trace c rs (serve c rs 0) impl
   | C02Multi c conns impls => cmp_conns c conns (serve_conns releaseRequestStream c conns []) impls
   end.
 
